@@ -5,6 +5,7 @@
    the refutations run the whole model -- lexer, parser, printer -- on concrete texts. *)
 From LR Require Import lib.Base lib.GoStr model.LqlAst model.LqlLex model.LqlParse model.LqlPrint model.LqlEval.
 From LR Require Import proofs.LqlParseP proofs.LqlStmtP proofs.LqlIntP proofs.LqlLexP proofs.LqlTextP proofs.LqlQuoteP proofs.LqlProdP.
+From LR Require Import model.LqlTime model.LqlTimeFmt proofs.C20TablesP proofs.LqlTimeFmtP.
 From Coq Require Import Strings.String.
 Local Open Scope string_scope.
 Local Open Scope list_scope.
@@ -187,6 +188,53 @@ Proof.
 Qed.
 Print Assumptions C12_truncate_before_quoted_once.
 
+(* ---- time points ----
+   A time point (RANGE, TRUNCATE BEFORE) is an int64 of Unix nanoseconds; DateTime.String() prints it (fmt_time:
+   model/LqlTimeFmt.v, what K runs for every time point of every case) and DateTime.Capture reads the printed text with
+   parseLqlDateTime (lql_parse on lql_list: the model of C20 on the format list regenerated from pkg/lql/datetime.go).
+   Statement: the printed text is read back to the same instant, whatever the clock says. *)
+Definition C12_time_statement (fmt : Z -> bytes) : Prop :=
+  forall now t, in_int64 t = true -> lql_parse now lql_list (fmt t) = LAbs t.
+
+(* Proved for the code's printer, for every int64 instant, with no hypothesis about the format list: the text is
+   `YYYY-MM-DD HH:mm:ss[.nnnnnnnnn] +0000 UTC`; no earlier format of the list matches anywhere in a text of that shape
+   (abstract interpretation of the regexp matcher over the digit positions, decided by vm_compute on the regenerated
+   list), the format `YYYY-MM-DD HH:mm:ss ZZZZ ZZZ` / `YYYY-MM-DD HH:mm:ss.SSS ZZZZ ZZZ` matches the whole text and
+   time.Parse of its layout gives back the civil fields (civil_from_days / days_from_civil round trip) and all nine
+   digits of the fraction. *)
+Theorem C12_time : C12_time_statement fmt_time.
+Proof. intros now t H. unfold lql_list. rewrite <- lql_c_eq. exact (time_roundtrip now t H). Qed.
+Print Assumptions C12_time.
+
+(* Refuted for the printer before the repair (time.Time.String() drops the trailing zeros of the fraction, and a
+   fraction of one or two digits is not matched by .SSS = `.\d{3,}`, so an earlier-in-the-list format without a fraction
+   claims the text): 2019-03-11 12:34:44.5 comes back as 12:34:44; the code's printer writes .500000000 *)
+Theorem C12_time_trimmed_fraction_refuted :
+  ~ C12_time_statement (fmt_time_v true) /\
+  fmt_time_v true 1552307684500000000 = B "2019-03-11 12:34:44.5 +0000 UTC" /\
+  lql_parse w_now lql_list (fmt_time_v true 1552307684500000000) = LAbs 1552307684000000000 /\
+  fmt_time 1552307684500000000 = B "2019-03-11 12:34:44.500000000 +0000 UTC".
+Proof.
+  destruct trimmed_half as (H1 & H2 & H3). unfold lql_list. rewrite <- lql_c_eq.
+  split; [|split; [exact H1|split; [exact H2|exact H3]]].
+  intros H. specialize (H w_now 1552307684500000000 eq_refl). unfold lql_list in H. rewrite <- lql_c_eq in H.
+  change 1552307684500000000%Z with t_half in H. rewrite H in H2. discriminate H2.
+Qed.
+Print Assumptions C12_time_trimmed_fraction_refuted.
+
+(* Hence the time hypotheses of C12_stmt_partial (time_ok for the points of a RANGE, before_ok for TRUNCATE BEFORE) hold
+   for every int64 time point when the environment is the code: parse_time = DateTime.Capture on an absolute literal
+   (read_time), fmt_time = the code's printer *)
+Theorem C12_time_hyps : forall now t, in_int64 t = true ->
+  time_ok (read_time now) fmt_time t /\ before_ok (read_time now) fmt_time t.
+Proof.
+  intros now t H. pose proof (read_fmt_time now t H) as Hr.
+  destruct (fmt_time_head t H) as (b & tl & E & Hb).
+  unfold time_ok, before_ok, plain_tok, str_tok. rewrite Hr, E.
+  destruct Hb as [-> | ->]; repeat split; reflexivity.
+Qed.
+Print Assumptions C12_time_hyps.
+
 (* ---- non-vacuity ---- *)
 (* a = <q, double quote, uote> AND NOT (c >= d OR UPPER(LOWER(t)) LIKE <x, star>) *)
 Definition sample_e : expr :=
@@ -225,7 +273,7 @@ Proof. vm_compute. reflexivity. Qed.
 (* the bare SELECT and a TRUNCATE with all six clauses satisfy the hypotheses of C12_stmt_partial *)
 Example sample_bare_select_ok : stmt_ok (fun _ => None) t0 (fun _ => None) (fun _ => []) f0 (LSelect empty_select).
 Proof. cbn [stmt_ok]. unfold select_ok, empty_select. cbn. repeat split; discriminate. Qed.
-Definition s0 (s : bytes) : option N := option_map Z.to_N (digits_val 10 s 0).
+Definition s0 (s : bytes) : option N := option_map Z.to_N (LqlParse.digits_val 10 s 0).
 Definition sample_truncate : truncate :=
   Truncate true (Some (SrcExpr sample_e)) (Some 0%N) (Some 18446744073709551615%N) (Some 1%Z) (Some 7%N).
 Example sample_truncate_ok : stmt_ok (fun _ => None) t0 s0 (fun _ => []) f0 (LTruncate sample_truncate).
